@@ -100,7 +100,7 @@ def _info_bounded(prop):
                         "Scope: every sequence of <= 3 (quick) / <= 5 (thorough) molecules over four species "
                         "(P single residue 3 atoms, Q one atom, R three residues X,Y,X with gapped residue numbers, W solvent never given a topology) "
                         "containing at least one loadable species; every subset of the loaded species given an end molecule (the empty subset and "
-                        "the states 'maps not calculated' / 'one map missing' must raise SystemError and create no file); rectangular and triclinic box; "
+                        "the states 'maps not calculated' / 'one map missing' must raise SystemError and create no file); rectangular and triclinic box (triclinic kinds rotated over the cases: mixed-sign, all-negative, hexagonal v2x=-a/2, all-positive, one tiny negative tilt term); "
                         "scale factors 0.5, 1.0, 1.7; title with and without trailing blanks; two topology loading orders; plus the shipped BMIM/BF4 box. "
                         "Exchange maps are initialised directly (no Monte-Carlo).  The output is parsed by an independent fixed-width parser.  "
                         "One obligation per (function, clause, scope family); a family is (first species of the sequence[, second], box kind, "
@@ -118,8 +118,15 @@ def _info_bounded(prop):
 SCALES = (0.5, 1.0, 1.7)
 BOXES = {
     "rect": "   7.51234   4.50021   4.20500",
-    "tric": "   7.51234   4.50021   4.20500   0.00000   0.00000   1.20345   0.00000   0.70012  -0.90170",
+    # GROMACS-valid triclinic cells (v1y = v1z = v2z = 0); .gro order v1x v2y v3z v1y v1z v2x v2z v3x v3y
+    "tric": "   7.51234   4.50021   4.20500   0.00000   0.00000   1.20345   0.00000   0.70012  -0.90170",       # mixed signs
+    "tric-neg": "   7.51234   4.50021   4.20500   0.00000   0.00000  -1.20345   0.00000  -0.70012  -0.90170",   # all tilt terms negative
+    "tric-hex": "   7.51234   6.50588   4.20500   0.00000   0.00000  -3.75617   0.00000   0.00000   0.00000",   # hexagonal, v2x = -a/2 only
+    "tric-pos": "   7.51234   4.50021   4.20500   0.00000   0.00000   1.20345   0.00000   0.70012   0.90170",   # all positive
+    "tric-tiny": "   7.51234   4.50021   4.20500   0.00000   0.00000   0.00000   0.00000  -0.00002   0.00000",  # one small negative term
 }
+# the triclinic scope family rotates over these kinds (one per (sequence, subset) in turn) instead of multiplying the scope
+BOX_ROTATION = {"rect": ("rect",), "tric": ("tric", "tric-neg", "tric-hex", "tric-pos", "tric-tiny")}
 TITLES = ("C05 generated coarse-grained system", "C05 generated system, t= 0.00000   ")
 
 # molecule name -> CG and AA descriptions; atom templates in nm
@@ -668,17 +675,21 @@ def task_synthetic(maxlen, first, second, box, ti, seed):
     t0 = time.time()
     agg = Agg(family_name(maxlen, first, second, box, ti))
     d = tempfile.mkdtemp(prefix="c05_")
+    nseq = -1
     try:
         for seq in sequences(maxlen):
             if seq[0] != first or (second is not None and seq[1:2] != second):
                 continue
-            texts, ranges = build_texts(seq, box, ti)
-            model = model_from_synthetic(texts, ranges)
-            files = write_files(d, texts)
+            nseq += 1
             order = load_order_for(seq, ti)
-            for sub in subsets(order):
+            kinds = BOX_ROTATION[box]
+            for si, sub in enumerate(subsets(order)):
+                kind = kinds[(nseq + si) % len(kinds)]
+                texts, ranges = build_texts(seq, kind, ti)
+                model = model_from_synthetic(texts, ranges)
+                files = write_files(d, texts)
                 for scale in (SCALES if sub else SCALES[:1]):
-                    case = {"kind": "synthetic", "seq": seq, "subset": sub, "box": box, "scale": scale,
+                    case = {"kind": "synthetic", "seq": seq, "subset": sub, "box": kind, "scale": scale,
                             "title": ti, "load_order": order, "system_gro": texts["sys"]}
                     try:
                         agg.add(run_case(files, model, order, sub, scale, d), case)
@@ -776,7 +787,7 @@ def _corruptions(text, model, complete):
     out[COUNT] = join(b=body[:-sizes[-1]])                       # last molecule dropped
     out[ORDER] = join(b=body[sizes[0]:] + body[:sizes[0]])       # first molecule moved to the end
     out[TITLE] = join(title="Gro file genereted with 'Gromacs Tools' python module.")
-    out[BOX] = join(box="   0.00000   0.00000   0.00000")
+    out[BOX] = join(box=lines[2 + n][:30])                       # tilt terms dropped: the cell silently becomes rectangular
     # residue numbers of the end-molecule file instead of the input molecule's
     out[RESIDS] = join(b=[("%5d" % AA_RESID0) + l[5:] for l in body[:sizes[0]]] + body[sizes[0]:])
     # one coordinate moved by two units of the last decimal, in a molecule with a >= 3 atom reference
@@ -839,7 +850,7 @@ def task_guards(seed):
     out = []
     d = tempfile.mkdtemp(prefix="c05g_")
     try:
-        seq, box, ti, scale = "RPQWR", "tric", 1, 1.7
+        seq, box, ti, scale = "RPQWR", "tric-neg", 1, 1.7
         texts, ranges = build_texts(seq, box, ti)
         model = model_from_synthetic(texts, ranges)
         complete = set(load_order_for(seq, ti))
@@ -884,7 +895,8 @@ def task_guards(seed):
         seqs = list(sequences(3))
         cover = {"solvent": any("W" in s for s in seqs), "repeat": any(len(set(s)) < len(s) for s in seqs),
                  "interleaved": "PRP" in seqs, "multi-residue": any("R" in s for s in seqs),
-                 "one-atom-reference": any("Q" in s for s in seqs), "sequences": len(seqs)}
+                 "one-atom-reference": any("Q" in s for s in seqs), "sequences": len(seqs),
+                 "box-kinds": sorted(k for v in BOX_ROTATION.values() for k in v)}
         out.append(ob(f"{FN}/guard.scope-not-vacuous", "discharged" if all(cover.values()) else "refuted", kind="guard",
                       engine="smallscope", backend="enumeration", expect="discharged", sample=cover))
     finally:
